@@ -419,7 +419,8 @@ func (c *Ctx) havocCall(entries []ModEntry) {
 			h := cur
 			for _, e := range byHeap[n] {
 				fv := c.fresh("hv", cur.Sort.ElemSort())
-				h = Ite(e.guard, Store(h, e.id, fv), h)
+				// id 0 is nil (no storage): nothing to change there
+				h = Ite(And(e.guard, Not(Eq(e.id, IntLit(0)))), Store(h, e.id, fv), h)
 			}
 			c.setHeap(n, h)
 			continue
@@ -427,7 +428,7 @@ func (c *Ctx) havocCall(entries []ModEntry) {
 		h := c.fresh("H$"+n, cur.Sort)
 		r := Term{S: "fr!r", Sort: SInt}
 		in := inModPred(byHeap[n])(r, n)
-		c.assume(Forall([]Term{r}, Implies(And(Lt(r, oldTop), Not(in)), StructEq(Select(h, r), Select(cur, r))), []Term{Select(h, r)}))
+		c.assume(Forall([]Term{r}, Implies(And(Lt(r, oldTop), Or(Not(in), Eq(r, IntLit(0)))), StructEq(Select(h, r), Select(cur, r))), []Term{Select(h, r)}))
 		c.St.Heap[n] = h
 	}
 }
